@@ -68,7 +68,8 @@ def generate(rng, tier):
     udocs = [b"[" + b",".join(b"%d" % i for i in range(12)) + b"]", b'{"a":1,"b":[true,null,"x"],"c":{"d":2.5}}', b"[[[[1,2],[3,", b'[1,2,3,nul]']
     for n in (range(96, 701) if not quick else range(96, 701, 1)):
         d = udocs[n % len(udocs)]
-        cases.append({"lines": [f"parse-seq upool-{n} {G.hx(d)} {G.hx(udocs[(n // 4) % len(udocs)])}"], "cls": "user-buffer-pool", "nontrivial": True})
+        for e in ((n % 8, (n * 3 + 1) % 8) if quick else range(8)):
+            cases.append({"lines": [f"parse-seq upool-{n}-{e} {G.hx(d)} {G.hx(udocs[(n // 4) % len(udocs)])}"], "cls": "user-buffer-pool", "nontrivial": True})
     for t, cls in texts:
         alloc = rng.choice(["pool", "simple", "track", "track", "guard", "gpool"] if len(t) < 400 else ["pool", "simple", "track"])
         cases.append({"lines": [f"parse {alloc} {G.hx(t)}"], "cls": cls + "/" + alloc, "nontrivial": len(t) > 2})
@@ -95,6 +96,8 @@ def generate(rng, tier):
 def judge(case, mo, io, cfg):
     if "CRASH" in io[0]:
         return ("violation", f"memory-safety failure (crash / sanitizer report): {io[0][:260]} for `{case['lines'][0][:160]}`")
+    if "CANARY" in io[0]:
+        return ("violation", f"Parse wrote outside the user-supplied pool buffer (canary clobbered): `{case['lines'][0][:160]}`")
     if "guardleak" in io[0]:
         return ("violation", f"blocks still allocated after the document was destroyed (guard allocator): `{case['lines'][0][:160]}`")
     body = io[0]
